@@ -86,9 +86,141 @@ def is_docstring(s) -> bool:
     return isinstance(s, ast.Expr) and isinstance(s.value, ast.Constant) and isinstance(s.value.value, str)
 
 
+LOG_METHODS = {"debug", "info", "warning", "warn", "error", "exception", "critical", "log"}
+LOG_BASES = {"self._logger", "_logger", "logger", "logging", "self.logger", "cls._logger"}
+PURE_CALLS = {"len", "str", "repr", "float", "int", "type", "round", "sorted", "list", "tuple", "bool", "abs"}
+
+
+def is_logging_stmt(s) -> bool:
+    """`<logger>.<level>(...)` whose arguments have no side effects (only reads and a few pure builtins)."""
+    if not (isinstance(s, ast.Expr) and isinstance(s.value, ast.Call) and isinstance(s.value.func, ast.Attribute)
+            and s.value.func.attr in LOG_METHODS and ast.unparse(s.value.func.value) in LOG_BASES):
+        return False
+    for a in list(s.value.args) + [k.value for k in s.value.keywords]:
+        for n in ast.walk(a):
+            if isinstance(n, ast.Call):
+                f = ast.unparse(n.func)
+                if f not in PURE_CALLS and not (isinstance(n.func, ast.Attribute) and n.func.attr in ("join", "format")):
+                    return False
+            if isinstance(n, (ast.NamedExpr, ast.Await, ast.Yield, ast.YieldFrom)):
+                return False
+    return True
+
+
+def strip_noise(stmts):
+    """Statements without docstrings, imports, `pass` and side-effect-free logging calls."""
+    return [s for s in stmts if not is_docstring(s) and not isinstance(s, (ast.Import, ast.ImportFrom, ast.Pass))
+            and not is_logging_stmt(s)]
+
+
 def statements(fn: ast.FunctionDef):
-    """Body without docstring and imports."""
-    return [s for s in fn.body if not is_docstring(s) and not isinstance(s, (ast.Import, ast.ImportFrom))]
+    """Body without docstring, imports and logging."""
+    return strip_noise(fn.body)
+
+
+def none_test(test: ast.AST, names):
+    """`<name> is None` -> (name, True); `<name> is not None` / `not (<name> is None)` -> (name, False); else None."""
+    neg = False
+    while isinstance(test, ast.UnaryOp) and isinstance(test.op, ast.Not):
+        test, neg = test.operand, not neg
+    if (isinstance(test, ast.Compare) and len(test.ops) == 1 and isinstance(test.left, ast.Name)
+            and test.left.id in names and isinstance(test.comparators[0], ast.Constant)
+            and test.comparators[0].value is None and isinstance(test.ops[0], (ast.Is, ast.IsNot))):
+        is_none = isinstance(test.ops[0], ast.Is)
+        return test.left.id, (is_none != neg)
+    return None
+
+
+def append_call(s, result: str):
+    """`<result>.append(<e>)` -> e, else None."""
+    if (isinstance(s, ast.Expr) and isinstance(s.value, ast.Call) and ast.unparse(s.value.func) == f"{result}.append"
+            and len(s.value.args) == 1 and not s.value.keywords):
+        return s.value.args[0]
+    return None
+
+
+def for_to_comprehension(loop: ast.For, result: str, what: str) -> ast.Assign:
+    """`for t in it: <result>.append(e)` and the filtered forms
+         for t in it: [v = call;] if v is not None: <result>.append(v)
+         for t in it: [v = call;] if v is None: continue;  <result>.append(v)
+    (with <result> == [] before the loop) as the equivalent `<result> = [comprehension]`."""
+    if loop.orelse or not isinstance(loop.target, ast.Name):
+        raise TranslateError(f"{what}: unsupported for-loop")
+    body = strip_noise(loop.body)
+    tgt = loop.target
+    var, call = tgt.id, None
+    if body and isinstance(body[0], ast.Assign) and len(body[0].targets) == 1 and isinstance(body[0].targets[0], ast.Name) \
+            and len(body) > 1:
+        var, call = body[0].targets[0].id, body[0].value
+        if var == tgt.id:
+            raise TranslateError(f"{what}: loop variable reassigned")
+        body = body[1:]
+    elt = ast.Name(id=var, ctx=ast.Load())
+    filtered = None
+    if len(body) == 1 and append_call(body[0], result) is not None:
+        e = append_call(body[0], result)
+        if call is None:
+            return ast.Assign(targets=[ast.Name(id=result, ctx=ast.Store())],
+                              value=ast.ListComp(elt=e, generators=[ast.comprehension(target=tgt, iter=loop.iter, ifs=[], is_async=0)]))
+        if not (isinstance(e, ast.Name) and e.id == var):
+            raise TranslateError(f"{what}: unsupported loop body")
+        return ast.Assign(targets=[ast.Name(id=result, ctx=ast.Store())],
+                          value=ast.ListComp(elt=call, generators=[ast.comprehension(target=tgt, iter=loop.iter, ifs=[], is_async=0)]))
+    if len(body) == 1 and isinstance(body[0], ast.If) and not body[0].orelse:
+        nt = none_test(body[0].test, [var])
+        inner = strip_noise(body[0].body)
+        if nt == (var, False) and len(inner) == 1 and _same_name(append_call(inner[0], result), var):
+            filtered = True
+    if len(body) == 2 and isinstance(body[0], ast.If) and not body[0].orelse:
+        nt = none_test(body[0].test, [var])
+        inner = strip_noise(body[0].body)
+        if nt == (var, True) and len(inner) == 1 and isinstance(inner[0], ast.Continue) \
+                and _same_name(append_call(body[1], result), var):
+            filtered = True
+    if not filtered:
+        raise TranslateError(f"{what}: unsupported loop body {ast.unparse(loop)[:80]}")
+    left = elt if call is None else ast.NamedExpr(target=ast.Name(id=var, ctx=ast.Store()), value=call)
+    test = ast.Compare(left=left, ops=[ast.IsNot()], comparators=[ast.Constant(value=None)])
+    return ast.Assign(targets=[ast.Name(id=result, ctx=ast.Store())],
+                      value=ast.ListComp(elt=elt, generators=[ast.comprehension(target=tgt, iter=loop.iter, ifs=[test], is_async=0)]))
+
+
+def _same_name(e, name) -> bool:
+    return isinstance(e, ast.Name) and e.id == name
+
+
+def is_empty_list_init(s, name=None):
+    """`<name> = []` / `<name>: T = []` / `= list()` -> name."""
+    if isinstance(s, ast.AnnAssign) and s.value is not None:
+        t, v = s.target, s.value
+    elif isinstance(s, ast.Assign) and len(s.targets) == 1:
+        t, v = s.targets[0], s.value
+    else:
+        return None
+    if not isinstance(t, ast.Name) or (name is not None and t.id != name):
+        return None
+    if (isinstance(v, ast.List) and not v.elts) or (call_name(v) == "list" and not v.args and not v.keywords):
+        return t.id
+    return None
+
+
+def loops_to_comprehensions(stmts, result: str, initialised: bool, what: str):
+    """Rewrite `[<result> = []]; for ...: <result>.append(...)` inside a branch as an assignment of a comprehension."""
+    out = []
+    init = initialised
+    for s in strip_noise(stmts):
+        if is_empty_list_init(s, result):
+            if init:
+                raise TranslateError(f"{what}: result list initialised twice")
+            init = True
+            continue
+        if isinstance(s, ast.For) and init and any(ast.unparse(n.func) == f"{result}.append"
+                                                     for n in ast.walk(s) if isinstance(n, ast.Call)):
+            out.append(for_to_comprehension(s, result, what))
+            init = False  # a second loop would extend a non-empty list: not a plain comprehension
+            continue
+        out.append(s)
+    return out
 
 
 class Inliner(ast.NodeTransformer):
@@ -184,26 +316,37 @@ def ctor_facts(cls: ast.ClassDef, what: str):
                     raise TranslateError(f"{what}.__init__: ** in super().__init__")
                 super_fw.append((kw.arg, value_of(kw.value)))
             continue
+        if isinstance(s, ast.Assign) and len(s.targets) == 1 and self_attr(s.targets[0]) == "data":
+            # self.data = EmulsionTimeCourse() if <p> is None else <p>     (or with the test negated)
+            v = s.value
+            nt = none_test(v.test, params) if isinstance(v, ast.IfExp) else None
+            if nt is None or data_param is not None:
+                raise TranslateError(f"{what}.__init__: unsupported initialisation of self.data")
+            new, given = (v.body, v.orelse) if nt[1] else (v.orelse, v.body)
+            if not (ast.unparse(new) == "EmulsionTimeCourse()" and _same_name(given, nt[0])):
+                raise TranslateError(f"{what}.__init__: unsupported initialisation of self.data")
+            data_param = nt[0]
+            continue
         if isinstance(s, ast.Assign) and len(s.targets) == 1 and self_attr(s.targets[0]):
             a = self_attr(s.targets[0])
-            if a in [k for k, _ in assign] or a == "data":
+            if a in [k for k, _ in assign]:
                 raise TranslateError(f"{what}.__init__: attribute {a} assigned twice")
             assign.append((a, value_of(s.value)))
             continue
         if isinstance(s, ast.If):
-            # if <p> is None: self.data = EmulsionTimeCourse()  else: self.data = <p>
-            t = s.test
-            ok = (isinstance(t, ast.Compare) and len(t.ops) == 1 and isinstance(t.ops[0], ast.Is)
-                  and isinstance(t.left, ast.Name) and t.left.id in params
-                  and isinstance(t.comparators[0], ast.Constant) and t.comparators[0].value is None
-                  and len(s.body) == 1 and len(s.orelse) == 1
-                  and all(isinstance(b, ast.Assign) and len(b.targets) == 1 and self_attr(b.targets[0]) == "data"
-                          for b in (s.body[0], s.orelse[0]))
-                  and ast.unparse(s.body[0].value) == "EmulsionTimeCourse()"
-                  and isinstance(s.orelse[0].value, ast.Name) and s.orelse[0].value.id == t.left.id)
+            # if <p> is None: self.data = EmulsionTimeCourse()  else: self.data = <p>   (or with the test negated)
+            nt = none_test(s.test, params)
+            body, orelse = strip_noise(s.body), strip_noise(s.orelse)
+            ok = (nt is not None and len(body) == 1 and len(orelse) == 1
+                  and all(isinstance(b, (ast.Assign, ast.AnnAssign)) for b in (body[0], orelse[0])))
+            if ok:
+                tgt = lambda b: b.targets[0] if isinstance(b, ast.Assign) and len(b.targets) == 1 else getattr(b, "target", None)  # noqa
+                new, given = (body[0], orelse[0]) if nt[1] else (orelse[0], body[0])
+                ok = (self_attr(tgt(new)) == "data" and self_attr(tgt(given)) == "data" and new.value is not None
+                      and ast.unparse(new.value) == "EmulsionTimeCourse()" and _same_name(given.value, nt[0]))
             if not ok or data_param is not None:
                 raise TranslateError(f"{what}.__init__: unsupported if-statement {ast.unparse(s.test)}")
-            data_param = t.left.id
+            data_param = nt[0]
             continue
         raise TranslateError(f"{what}.__init__: unsupported statement {ast.unparse(s)[:80]}")
     defaults = [(p, d) for p, d in sig if d is not None]
@@ -311,6 +454,13 @@ def droplet_tracker_facts(tr: ast.Module, locate_sig):
     # ---- finalize: super().finalize(info); if self.filename: self.data.to_file(self.filename)
     fin = find_def(cls.body, "finalize")
     st = statements(fin)
+    if (len(st) == 3 and isinstance(st[1], ast.If) and not st[1].orelse and isinstance(st[1].test, ast.UnaryOp)
+            and isinstance(st[1].test.op, ast.Not) and len(strip_noise(st[1].body)) == 1
+            and isinstance(strip_noise(st[1].body)[0], ast.Return) and strip_noise(st[1].body)[0].value is None):
+        # if not self.<a>: return;  <write>   ==   if self.<a>: <write>
+        st = [st[0], ast.If(test=st[1].test.operand, body=[st[2]], orelse=[])]
+    if len(st) == 2 and isinstance(st[1], ast.If):
+        st[1] = ast.If(test=st[1].test, body=strip_noise(st[1].body), orelse=strip_noise(st[1].orelse))
     ok = (len(st) == 2 and isinstance(st[0], ast.Expr) and call_name(st[0].value) == "super().finalize"
           and isinstance(st[1], ast.If) and self_attr(st[1].test) is not None and not st[1].orelse
           and len(st[1].body) == 1 and isinstance(st[1].body[0], ast.Expr)
@@ -376,20 +526,18 @@ def length_tracker_facts(tr: ast.Module, gls_sig):
         raise TranslateError(f"LengthScaleTracker.handle: unsupported statement {ast.unparse(s)[:80]}")
     if the_try is None:
         raise TranslateError("LengthScaleTracker.handle: the analysis is not guarded by try/except")
-    if the_try.orelse or the_try.finalbody or len(the_try.handlers) != 1:
+    if strip_noise(the_try.orelse) or strip_noise(the_try.finalbody) or len(the_try.handlers) != 1:
         raise TranslateError("LengthScaleTracker.handle: unexpected try/except shape")
     h = the_try.handlers[0]
     catches = "BaseException" if h.type is None else ast.unparse(h.type)
     fallback = None
     exits = False
-    for s in h.body:
+    for s in strip_noise(h.body):
         if exits:
             raise TranslateError("LengthScaleTracker.handle: statement after return in handler")
-        if isinstance(s, ast.If) and not s.orelse and all(
-                isinstance(b, ast.Expr) and (call_name(b.value) or "").startswith("self._logger.") for b in s.body):
+        if isinstance(s, ast.If) and not strip_noise(s.orelse) and not strip_noise(s.body) \
+                and not any(isinstance(n, (ast.Call, ast.NamedExpr)) for n in ast.walk(s.test)):
             continue  # logging only
-        if isinstance(s, ast.Expr) and (call_name(s.value) or "").startswith("self._logger."):
-            continue
         if isinstance(s, ast.Assign) and len(s.targets) == 1 and isinstance(s.targets[0], ast.Name) \
                 and s.targets[0].id == length_var and fallback is None:
             fallback = ast.unparse(s.value)
@@ -429,6 +577,22 @@ def serial_test(test: ast.AST, params: list[str], what: str):
     raise TranslateError(f"{what}: the serial branch is not selected by `<parameter> == <n>`: {ast.unparse(test)}")
 
 
+def serial_branches(branch: ast.If, params, what):
+    """`if np == n: <serial> else: <parallel>` or `if np != n: <parallel> else: <serial>`
+    -> (np parameter, n, serial statements, parallel statements)."""
+    test = branch.test
+    swap = False
+    if isinstance(test, ast.UnaryOp) and isinstance(test.op, ast.Not):
+        test, swap = test.operand, True
+    if isinstance(test, ast.Compare) and len(test.ops) == 1 and isinstance(test.ops[0], ast.NotEq):
+        test = ast.Compare(left=test.left, ops=[ast.Eq()], comparators=test.comparators)
+        swap = not swap
+    p, n = serial_test(test, params, what)
+    if not branch.orelse:
+        raise TranslateError(f"{what}: no else-branch")
+    return (p, n, branch.orelse, branch.body) if swap else (p, n, branch.body, branch.orelse)
+
+
 def max_workers_rule(e: ast.AST, np_param: str, what: str) -> str:
     """`None if np == "auto" else np` -> MWAutoElseGiven; `None` -> MWUnlimited; `<n>` -> MWFixed n."""
     if isinstance(e, ast.Constant) and e.value is None:
@@ -466,13 +630,16 @@ def describe_call(func: str, pos: list, kws: list, star, slot: ast.AST | None) -
     return f"{func}({', '.join(parts)})"
 
 
-def parallel_block(stmts, env0, np_param, params, what):
+def parallel_block(stmts, env0, np_param, params, what, result=None, initialised=False):
     """[W = functools.partial(f, ...)]; max_workers = <rule>; with ProcessPoolExecutor(max_workers=...) as ex:
     <target> = <gather expression>.   Returns (worker call description parts, rule, gather, iterable, target, expr)."""
     env = dict(env0)
     with_stmt = None
-    for s in stmts:
-        if isinstance(s, (ast.Import, ast.ImportFrom)):
+    for s in strip_noise(stmts):
+        if result is not None and with_stmt is None and is_empty_list_init(s, result):
+            if initialised:
+                raise TranslateError(f"{what}: result list initialised twice")
+            initialised = True
             continue
         if isinstance(s, ast.AnnAssign) and s.value is not None and isinstance(s.target, ast.Name):
             env[s.target.id] = inline(s.value, env)
@@ -494,6 +661,10 @@ def parallel_block(stmts, env0, np_param, params, what):
     if ctx.args or [k.arg for k in ctx.keywords] != ["max_workers"]:
         raise TranslateError(f"{what}: unexpected arguments of ProcessPoolExecutor")
     rule = max_workers_rule(ctx.keywords[0].value, np_param, what)
+    if result is not None:
+        with_stmt.body = loops_to_comprehensions(with_stmt.body, result, initialised, what)
+    else:
+        with_stmt.body = strip_noise(with_stmt.body)
     # `if <flag parameter>: <gather one way> else: <gather another way>` inside the with-block
     if (len(with_stmt.body) == 1 and isinstance(with_stmt.body[0], ast.If) and with_stmt.body[0].orelse
             and isinstance(with_stmt.body[0].test, ast.Name) and with_stmt.body[0].test.id in params):
@@ -543,13 +714,19 @@ def refine_droplets_facts(ia: ast.Module):
     params = [p for p, _ in sig]
     st = statements(fn)
     what = "refine_droplets"
+    initialised = False
+    if len(st) == 3 and isinstance(st[2], ast.Return) and isinstance(st[2].value, ast.Name) \
+            and is_empty_list_init(st[0], st[2].value.id):
+        initialised, st = True, st[1:]  # droplets = []  before the branches (filled by loops)
     if not (len(st) == 2 and isinstance(st[0], ast.If) and isinstance(st[1], ast.Return)
             and isinstance(st[1].value, ast.Name)):
         raise TranslateError(f"{what}: body is not `if <serial test>: ... else: ...; return <name>`")
     result = st[1].value.id
-    np_param, serial_n = serial_test(st[0].test, params, what)
+    np_param, serial_n, serial_body, parallel_body = serial_branches(st[0], params, what)
     # ---- serial branch: result = [drop for c in candidates if (drop := refine_droplet(...)) is not None]
-    sb = [s for s in st[0].body if not isinstance(s, (ast.Import, ast.ImportFrom))]
+    sb = loops_to_comprehensions(serial_body, result, initialised, what)
+    if initialised and not (len(sb) == 1 and isinstance(sb[0], ast.Assign)):
+        raise TranslateError(f"{what}: serial branch does not fill the pre-initialised result by one loop")
     if not (len(sb) == 1 and isinstance(sb[0], ast.Assign) and len(sb[0].targets) == 1
             and isinstance(sb[0].targets[0], ast.Name) and sb[0].targets[0].id == result
             and isinstance(sb[0].value, ast.ListComp) and len(sb[0].value.generators) == 1):
@@ -579,7 +756,7 @@ def refine_droplets_facts(ia: ast.Module):
     star = next((k.value for k in call.keywords if k.arg is None), None)
     ser_call = describe_call(ast.unparse(call.func), call.args, kws, star, slot[0])
     # ---- parallel branch
-    ex, rule, target, expr, how = parallel_block(st[0].orelse, {}, np_param, params, what)
+    ex, rule, target, expr, how = parallel_block(parallel_body, {}, np_param, params, what, result, initialised)
     if how == "split":
         raise TranslateError(f"{what}: the parallel branch gathers differently depending on `{target['flag']}`")
     if how == "completion":
@@ -624,9 +801,13 @@ def from_storage_facts(em: ast.Module, locate_sig):
     defaults = [(p, d) for p, d in sig if d is not None]
     what = "from_storage"
     st = statements(fn)
+    initialised = False
+    if len(st) == 3 and is_empty_list_init(st[0]) and isinstance(st[2], ast.Return):
+        init_name, st = is_empty_list_init(st[0]), st[1:]
+        initialised = True
     if not (len(st) == 2 and isinstance(st[0], ast.If) and isinstance(st[1], ast.Return)):
         raise TranslateError(f"{what}: body is not `if <serial test>: ... else: ...; return cls(...)`")
-    np_param, serial_n = serial_test(st[0].test, params, what)
+    np_param, serial_n, serial_body, parallel_body = serial_branches(st[0], params, what)
     lsig, lnpos, lkw = locate_sig
     first = lsig[0][0]
     # ---- return cls(<result>, times=<storage>.times)
@@ -645,11 +826,11 @@ def from_storage_facts(em: ast.Module, locate_sig):
         times_from = t.value.id
     else:
         times_from = ""
+    if initialised and init_name != result:
+        raise TranslateError(f"{what}: unexpected list initialisation before the branches")
     # ---- serial branch
     ser = None
-    for s in st[0].body:
-        if isinstance(s, (ast.Import, ast.ImportFrom)):
-            continue
+    for s in loops_to_comprehensions(serial_body, result, initialised, what):
         if isinstance(s, ast.If):
             # if progress is None: progress = refine   (display only)
             ok = (ast.unparse(s.test) == "progress is None" and not s.orelse and len(s.body) == 1
@@ -680,7 +861,7 @@ def from_storage_facts(em: ast.Module, locate_sig):
     lb.pop(first)
     ser_fw, ser_star = forward_table(lb, lstar, None, params, kwarg, what + " (serial)")
     # ---- parallel branch
-    ex, rule, target, expr, how = parallel_block(st[0].orelse, {}, np_param, params, what)
+    ex, rule, target, expr, how = parallel_block(parallel_body, {}, np_param, params, what, result, initialised)
 
     def partial_forward(part):
         if ast.unparse(part.args[0]) != "locate_droplets" or len(part.args) != 1:
@@ -756,6 +937,229 @@ def from_storage_facts(em: ast.Module, locate_sig):
 
 
 # ---------------------------------------------------------------------------------------
+# refine_droplet: does the task write into option dicts handed in by the caller?
+# ---------------------------------------------------------------------------------------
+READ_METHODS = {"get", "items", "keys", "values", "copy", "__contains__", "__len__"}
+WRITE_METHODS = {"setdefault", "update", "pop", "popitem", "clear", "__setitem__", "__delitem__"}
+
+
+def _is_name(n, name):
+    return isinstance(n, ast.Name) and n.id == name
+
+
+def _fresh_dict_expr(e: ast.AST, name: str, state: str):
+    """Abstract value of an expression assigned to the option name: 'FRESH' (a new dict), 'ARG' (possibly the
+    caller's object), or None (not understood)."""
+    if isinstance(e, ast.Dict):
+        return "FRESH"  # {} / {**name, ...}
+    if isinstance(e, ast.Call):
+        f = ast.unparse(e.func)
+        if f == "dict" or f in ("copy.copy", "copy.deepcopy", "deepcopy"):
+            return "FRESH"
+        if f == f"{name}.copy" and not e.args and not e.keywords:
+            return "FRESH"
+        return None
+    if isinstance(e, ast.BinOp) and isinstance(e.op, ast.BitOr):
+        return "FRESH"  # dict | dict builds a new dict
+    if _is_name(e, name):
+        return state
+    if isinstance(e, ast.IfExp):
+        a, b = _fresh_dict_expr(e.body, name, state), _fresh_dict_expr(e.orelse, name, state)
+        if a is None or b is None:
+            return None
+        return "FRESH" if a == b == "FRESH" else "ARG"
+    return None
+
+
+class _OptionWrites:
+    """Flow-insensitive-in-loops, path-joining scan of a function body for one option parameter."""
+
+    def __init__(self, name, what):
+        self.name, self.what = name, what
+        self.writes_on_arg: list[str] = []
+        self.writes: list[str] = []
+
+    def uses(self, node):
+        return any(_is_name(n, self.name) for n in ast.walk(node))
+
+    def expr(self, e: ast.AST, state: str):
+        """Check one expression (no statements inside) for writes through / escapes of the option."""
+        name = self.name
+        parents = {}
+        for n in ast.walk(e):
+            for c in ast.iter_child_nodes(n):
+                parents[c] = n
+        for n in ast.walk(e):
+            if not _is_name(n, name):
+                continue
+            par = parents.get(n)
+            if par is None:
+                continue
+            if isinstance(par, ast.Attribute) and par.value is n:
+                gp = parents.get(par)
+                if isinstance(gp, ast.Call) and gp.func is par:
+                    if par.attr in WRITE_METHODS:
+                        self.writes.append(par.attr)
+                        if state == "ARG":
+                            self.writes_on_arg.append(par.attr)
+                        continue
+                    if par.attr in READ_METHODS:
+                        continue
+                raise TranslateError(f"{self.what}: unsupported use of option `{name}`: {ast.unparse(gp or par)[:60]}")
+            if isinstance(par, ast.Subscript) and par.value is n:
+                if isinstance(par.ctx, ast.Load):
+                    continue
+                raise TranslateError(f"{self.what}: unsupported subscript use of `{name}`")
+            if isinstance(par, ast.keyword) and par.arg is None:
+                continue  # **name : the callee receives the items, not the object
+            if isinstance(par, ast.Compare):
+                continue  # `name is None`, `k in name`
+            if isinstance(par, (ast.BoolOp, ast.UnaryOp)) or (isinstance(par, ast.IfExp) and par.test is n):
+                continue  # truth value
+            if isinstance(par, ast.Dict):
+                continue  # {**name}
+            if isinstance(par, ast.Call) and ast.unparse(par.func) in ("dict", "len", "copy.copy", "copy.deepcopy",
+                                                                        "deepcopy", "isinstance", "bool"):
+                continue
+            if state == "FRESH":
+                continue  # the task's own copy may go anywhere
+            raise TranslateError(f"{self.what}: the caller's `{name}` object escapes: {ast.unparse(par)[:60]}")
+
+    def block(self, stmts, state: str) -> str:
+        for s in stmts:
+            state = self.stmt(s, state)
+        return state
+
+    @staticmethod
+    def join(a, b):
+        return "FRESH" if a == b == "FRESH" else "ARG"
+
+    def stmt(self, s, state: str) -> str:
+        name = self.name
+        if not self.uses(s):
+            return state
+        if isinstance(s, (ast.FunctionDef, ast.Lambda, ast.ClassDef)):
+            if state == "FRESH":
+                return state
+            raise TranslateError(f"{self.what}: nested definition captures the caller's `{name}`")
+        if isinstance(s, (ast.Assign, ast.AnnAssign)):
+            targets = s.targets if isinstance(s, ast.Assign) else [s.target]
+            value = s.value
+            if len(targets) == 1 and _is_name(targets[0], name) and value is not None:
+                # rebinding the local name
+                v = _fresh_dict_expr(value, name, state)
+                if v is None:
+                    raise TranslateError(f"{self.what}: `{name}` is rebound to {ast.unparse(value)[:60]}")
+                self.expr(value, state)
+                return v
+            for t in targets:
+                if isinstance(t, ast.Subscript) and _is_name(t.value, name):
+                    self.writes.append("[]=")
+                    if state == "ARG":
+                        self.writes_on_arg.append("[]=")
+                    self.expr(t.slice, state)
+                elif self.uses(t):
+                    raise TranslateError(f"{self.what}: unsupported assignment target involving `{name}`")
+            if value is not None:
+                if _is_name(value, name) and state == "ARG":
+                    raise TranslateError(f"{self.what}: the caller's `{name}` object gets a second name")
+                self.expr(value, state)
+            return state
+        if isinstance(s, ast.AugAssign):
+            if _is_name(s.target, name) or (isinstance(s.target, ast.Subscript) and _is_name(s.target.value, name)):
+                self.writes.append("augmented assignment")
+                if state == "ARG":
+                    self.writes_on_arg.append("augmented assignment")
+                self.expr(s.value, state)
+                return state
+            self.expr(s.value, state)
+            return state
+        if isinstance(s, ast.Delete):
+            for t in s.targets:
+                if isinstance(t, ast.Subscript) and _is_name(t.value, name):
+                    self.writes.append("del")
+                    if state == "ARG":
+                        self.writes_on_arg.append("del")
+                elif self.uses(t):
+                    raise TranslateError(f"{self.what}: unsupported del involving `{name}`")
+            return state
+        if isinstance(s, ast.If):
+            self.expr(s.test, state)
+            a = self.block(s.body, state)
+            b = self.block(s.orelse, state)
+            if s.body and isinstance(s.body[-1], (ast.Return, ast.Raise)):
+                return b
+            if s.orelse and isinstance(s.orelse[-1], (ast.Return, ast.Raise)):
+                return a
+            return self.join(a, b)
+        if isinstance(s, (ast.For, ast.While)):
+            if isinstance(s, ast.For):
+                self.expr(s.iter, state)
+                if self.uses(s.target):
+                    raise TranslateError(f"{self.what}: `{name}` is a loop variable")
+            else:
+                self.expr(s.test, state)
+            after = self.block(s.body, state)
+            entry = self.join(state, after)
+            after = self.block(s.body, entry)  # second pass: what a later iteration sees
+            return self.join(entry, self.block(s.orelse, self.join(entry, after)))
+        if isinstance(s, ast.With):
+            for it in s.items:
+                self.expr(it.context_expr, state)
+                if it.optional_vars is not None and self.uses(it.optional_vars):
+                    raise TranslateError(f"{self.what}: `{name}` bound by with")
+            return self.block(s.body, state)
+        if isinstance(s, ast.Try):
+            st = self.block(s.body, state)
+            for h in s.handlers:
+                st = self.join(st, self.block(h.body, self.join(state, st)))
+            st = self.block(s.orelse, st)
+            return self.block(s.finalbody, st)
+        if isinstance(s, (ast.Expr, ast.Return)):
+            if s.value is not None:
+                if isinstance(s, ast.Return) and state == "ARG" and self.uses(s.value) and not isinstance(s.value, ast.Compare):
+                    raise TranslateError(f"{self.what}: the caller's `{name}` object is returned")
+                self.expr(s.value, state)
+            return state
+        if isinstance(s, (ast.Raise, ast.Assert)):
+            for c in ast.iter_child_nodes(s):
+                self.expr(c, state)
+            return state
+        raise TranslateError(f"{self.what}: unsupported statement involving `{name}`: {type(s).__name__}")
+
+
+def refine_options_facts(ia: ast.Module):
+    """Option parameters of refine_droplet that are dicts, the writes the function performs on them and whether
+    every such write happens after the name was rebound to a new dict (so that the caller's object is not touched)."""
+    fn = find_def(ia.body, "refine_droplet")
+    what = "refine_droplet"
+    kwonly = [(a, ast.unparse(a.annotation) if a.annotation is not None else "") for a in fn.args.kwonlyargs]
+    positional = [a.arg for a in fn.args.posonlyargs + fn.args.args]
+    if fn.args.vararg or fn.args.kwarg or len(positional) != 2:
+        raise TranslateError(f"{what}: signature is not (phase_field, droplet, *, <options>)")
+    dicts = []
+    for a, ann in kwonly:
+        name = a.arg
+        dictish = "dict" in ann.lower() or "mapping" in ann.lower()
+        for n in ast.walk(fn):
+            if isinstance(n, ast.keyword) and n.arg is None and _is_name(n.value, name):
+                dictish = True
+            if isinstance(n, ast.Attribute) and _is_name(n.value, name) and n.attr in WRITE_METHODS | READ_METHODS:
+                dictish = True
+            if isinstance(n, ast.Subscript) and _is_name(n.value, name) and isinstance(n.ctx, (ast.Store, ast.Del)):
+                dictish = True
+        if dictish:
+            dicts.append(name)
+    writes, bad = [], []
+    for name in dicts:
+        sc = _OptionWrites(name, what)
+        sc.block(statements(fn), "ARG")
+        writes += [f"{name}.{w}" for w in sc.writes]
+        bad += [f"{name}.{w}" for w in sc.writes_on_arg]
+    return dict(dicts=dicts, writes=sorted(set(writes)), writes_on_arg=sorted(set(bad)), copies=not bad)
+
+
+# ---------------------------------------------------------------------------------------
 # output
 # ---------------------------------------------------------------------------------------
 HEADER = """(* GENERATED by harness/gen_glue.py from the current source tree -- do not edit.
@@ -783,6 +1187,7 @@ def gen_glue() -> str:
     ls = length_tracker_facts(tr, gls_sig)
     fs = from_storage_facts(em, locate_sig)
     rd = refine_droplets_facts(ia)
+    ro = refine_options_facts(ia)
     out = [HEADER]
 
     def d(name, ty, val, comment=None):
@@ -856,6 +1261,14 @@ def gen_glue() -> str:
     d("rd_parallel_filters_none", "bool", cbool(rd["par_filter"]))
     d("rd_serial_call", "string", cstr(rd["ser_call"]), "worker call, per-task argument written _")
     d("rd_parallel_call", "string", cstr(rd["par_call"]))
+    out.append("\n(* ---- image_analysis.refine_droplet: option dicts handed in by the caller ---- *)")
+    d("refine_option_dicts", "list string", clist(cstr(x) for x in ro["dicts"]), "dict-valued options of refine_droplet")
+    d("refine_options_writes", "list string", clist(cstr(x) for x in ro["writes"]),
+      "writes refine_droplet performs on (its binding of) these names")
+    d("refine_writes_caller_options", "list string", clist(cstr(x) for x in ro["writes_on_arg"]),
+      "... of which may hit the object the caller handed in")
+    d("refine_copies_options", "bool", cbool(ro["copies"]),
+      "every write happens after the name was rebound to a new dict: the caller's object is left alone")
     return "\n".join(out) + "\n"
 
 
